@@ -18,8 +18,8 @@ theorem C07_iv_format (c : UInt32) (r : Bool) (h : getInitializationVector_overf
     simp only [decide_eq_false_iff_not] at h; omega
   exact Prod.ext (gen_iv_fst c r) (gen_iv_snd c r hlt)
 
-/-- The only counter value at which the code overflows is 2^32 - 1 (excluded by the property:
-"shorter than 2^32 messages per direction"). -/
+/-- The only counter value at which the translated function would overflow is 2^32 - 1; the
+callers (`encrypt`/`decrypt`, modelled by `atMax` in `Model/Session.lean`) refuse exactly there. -/
 theorem C07_overflow_point (c : UInt32) (r : Bool) :
     getInitializationVector_overflows c r = true ↔ c.toNat = 2^32 - 1 := by
   rw [gen_ovf]
@@ -33,39 +33,59 @@ theorem C07_iv_injective (r r' : Bool) (n n' : Nat) (hn : n < 2^32) (hn' : n' < 
   isoIv_injective r r' n n' hn hn' h
 
 /-- For every sequence of session operations of both roles (including failed decryptions and
-stringify/parse restores) in which fewer than 2^32 messages were encrypted in direction `r`,
-the (k+1)-th message encrypted in that direction used the ISO IV with counter k+1. -/
-theorem C07_nth_iv (s : Nat) (ops : List Op) (r : Bool)
-    (hlen : (((World.established s).run ops).dirLog r).length < 2^32) (k : Nat)
+stringify/parse restores) — with NO bound on its length — the (k+1)-th message encrypted in
+direction `r` used the ISO IV with counter k+1 … -/
+theorem C07_nth_iv (s : Nat) (ops : List Op) (r : Bool) (k : Nat)
     (hk : k < (((World.established s).run ops).dirLog r).length) :
     (((World.established s).run ops).dirLog r)[k]? = some (r, UInt32.ofNat (k+1), isoIv r (k+1)) :=
-  ((LogOk_run _ ops (LogOk_established s)) r hlen).2 k hk
+  ((LogOk_run _ ops (LogOk_established s)) r).2 k hk
+
+/-- … and a direction never encrypts 2^32 or more messages: at `u32::MAX` the code refuses to
+encrypt (the "fewer than 2^32 messages per direction" premise of the property is enforced, not
+assumed). -/
+theorem C07_never_wraps (s : Nat) (ops : List Op) (r : Bool) :
+    (((World.established s).run ops).dirLog r).length < 2^32 := by
+  have h := ((LogOk_run _ ops (LogOk_established s)) r).1
+  have := (((World.established s).run ops).encCtr r).toNat_lt
+  omega
 
 /-- Consequently no two encryptions in one direction (= under one key) share an IV … -/
-theorem C07_no_reuse (s : Nat) (ops : List Op) (r : Bool)
-    (hlen : (((World.established s).run ops).dirLog r).length < 2^32) (i j : Nat)
+theorem C07_no_reuse (s : Nat) (ops : List Op) (r : Bool) (i j : Nat)
     (hi : i < (((World.established s).run ops).dirLog r).length)
     (hj : j < (((World.established s).run ops).dirLog r).length)
     (h : ((((World.established s).run ops).dirLog r)[i]?).map (·.2.2) =
          ((((World.established s).run ops).dirLog r)[j]?).map (·.2.2)) : i = j := by
-  rw [C07_nth_iv s ops r hlen i hi, C07_nth_iv s ops r hlen j hj] at h
+  have hlen := C07_never_wraps s ops r
+  rw [C07_nth_iv s ops r i hi, C07_nth_iv s ops r j hj] at h
   simp only [Option.map_some, Option.some.injEq] at h
   have := (isoIv_injective r r (i+1) (j+1) (by omega) (by omega) h).2
   omega
 
 /-- … and an IV of one direction never equals an IV of the other direction. -/
-theorem C07_directions_disjoint (s : Nat) (ops : List Op)
-    (hr : (((World.established s).run ops).dirLog true).length < 2^32)
-    (hd : (((World.established s).run ops).dirLog false).length < 2^32) (i j : Nat)
+theorem C07_directions_disjoint (s : Nat) (ops : List Op) (i j : Nat)
     (hi : i < (((World.established s).run ops).dirLog true).length)
     (hj : j < (((World.established s).run ops).dirLog false).length) :
     ((((World.established s).run ops).dirLog true)[i]?).map (·.2.2) ≠
     ((((World.established s).run ops).dirLog false)[j]?).map (·.2.2) := by
-  rw [C07_nth_iv s ops true hr i hi, C07_nth_iv s ops false hd j hj]
+  have hr := C07_never_wraps s ops true
+  have hd := C07_never_wraps s ops false
+  rw [C07_nth_iv s ops true i hi, C07_nth_iv s ops false j hj]
   simp only [Option.map_some, ne_eq, Option.some.injEq]
   intro h
   have := (isoIv_injective true false (i+1) (j+1) (by omega) (by omega) h).1
   cases this
+
+/-- the exhaustion guard itself: with the send counter at `u32::MAX` the reader produces no
+request and the device's pending response becomes a bare status message; no counter moves. -/
+theorem C07_exhausted_reader (r : Reader) (h : r.encCtr.toNat = 2^32 - 1) :
+    r.newRequest = (r, none) := by
+  simp [Reader.newRequest, (atMax_iff _).mpr h]
+
+theorem C07_exhausted_device (d : Device) (signed : List (Nat × Nat)) (status : Nat)
+    (h : d.encCtr.toNat = 2^32 - 1) (hs : d.st = .signing [] signed status) :
+    d.finalizeIfComplete = { d with st := .ready .noData } := by
+  have hm := (atMax_iff _).mpr h
+  simp [Device.finalizeIfComplete, hs, hm]
 
 /-- Serialising and restoring either session object is invisible to the counters and the log
 (the model's restore is the identity; that the real stringify/parse is, is C14's correspondence). -/
